@@ -288,6 +288,12 @@ b("epm-writer-exclude-unset", "C14", API, "    rv: dict[str, str | list[str]] = 
 b("subconverter-shallow-copy", "C10 C09", API, "        return Converter(records, delimiter=self.delimiter)\n", "        if len(records) == len(self.records):\n            import copy\n            rv = copy.copy(self)\n            rv.records = records\n            return rv\n        return Converter(records, delimiter=self.delimiter)\n", "C10-D3 C09-X1")
 b("match-record-fast-path", "C05 C09", API, "        rv: defaultdict[RecordKey, list[str]] = defaultdict(list)\n        for record in self.records:", "        rv: defaultdict[RecordKey, list[str]] = defaultdict(list)\n        if external.prefix in self.prefix_map and self.prefix_map[external.prefix] == external.uri_prefix:\n            return {self.get_record(external.prefix)._key: [\"prefix match\"]}\n        for record in self.records:", "C05-D6 C09-D2")
 
+b("epm-writer-utf8-only", "C14", API, "            ensure_ascii=False,\n        )\n    )\n", "            ensure_ascii=False,\n        ),\n        encoding=\"utf-8\",\n    )\n", "C14-D7")
+b("prepare-latin1", "C14 C13", API, "        with open(data) as file:\n", "        with open(data, encoding=\"latin-1\") as file:\n", "C14-D7")
+t("twin-epm-both-utf8", "C14", API, "        with open(data) as file:\n", "        with open(data, encoding=None) as file:\n")
+b("triples-write-utf16", "C15", TRI, 'yield open(path, mode="r" if read else "w")', 'yield open(path, mode="r" if read else "w", encoding=None if read else "utf-16")', "C15-D8")
+b("file-helper-write-encoding", "C16", API, '        with path.open("w") as file_out:', '        with path.open("w", encoding="utf-8") as file_out:', "C16-D5")
+
 
 def apply_unified_diff(files: dict, diff_text: str) -> dict | None:
     """Apply a unified diff (git format, paths a/src/curies/...) to an in-memory tree; None if it does not fit."""
